@@ -866,7 +866,16 @@ rv = .false.
                     )
 
                 if subprogram == "function":
-                    arg_c_decl.append(ast.bind_c(name=key, params=None))
+                    # Result of the function pointer (not of the wrapped function).
+                    if arg.is_pointer():
+                        arg_c_decl.append("type(C_PTR) :: {}".format(key))
+                        self.set_f_module(modules, "iso_c_binding", "C_PTR")
+                    else:
+                        arg_c_decl.append("{} :: {}".format(
+                            arg.typemap.f_c_type or arg.typemap.f_type, key))
+                        self.update_f_module(
+                            modules, imports,
+                            arg.typemap.f_c_module or arg.typemap.f_module)
                 arguments = ",\t ".join(arg_f_names)
                 if node.options.literalinclude:
                     iface.append("! start abstract " + key)
